@@ -1019,6 +1019,47 @@ def d2k_generators_iterate_snapshots_of_mappings(chk: Check,
                          "OrderedDict mutated during iteration".format(data))
 
 
+def d2l_creation_helper_refuses_only_real_values(chk: Check) -> None:
+    """The optional-match driver calls `Nodes.append_list_element` with a
+    null placeholder when an Anchor segment matches nothing in an Array
+    (the default mode of get_nodes()).  The helper's own `raise ValueError`
+    ("impossible to add an Anchor to value") is outside the exception
+    analysis of the evaluator; it is harmless only because it sits behind
+    `value is not None`.  Without that guard an unmatched `list[&name]`
+    raises ValueError out of a plain read."""
+    prog = chk.prog
+    chk.rule("C15-D2l", "every raise of Nodes.append_list_element stands "
+             "under `<value> is not None`", floor=1)
+    fi = prog.func("Nodes.append_list_element")
+    value = fi.params()[1]
+    raises = [r for r in walk_local(fi.node) if isinstance(r, ast.Raise)]
+    if not raises:
+        chk.ok("C15-D2l", fi, fi.node, "append_list_element", "raises "
+               "nothing")
+        return
+    for r in raises:
+        # (the value is re-bound to its wrapped form inside the guard, which
+        # kills the guard fact: read the enclosing tests instead)
+        guarded = False
+        child = r
+        for a in ancestors(r):
+            if isinstance(a, ast.If) and any(child is st or any(
+                    x is child for x in ast.walk(st)) for st in a.body):
+                conj = a.test.values if isinstance(a.test, ast.BoolOp) and \
+                    isinstance(a.test.op, ast.And) else [a.test]
+                if any(src(v) == value + " is not None" for v in conj):
+                    guarded = True
+            child = a
+        text = "append_list_element: {}".format(src(r)[:50])
+        if guarded:
+            chk.ok("C15-D2l", fi, r, text, "only for a real value")
+        else:
+            chk.fail("C15-D2l", fi, r, text,
+                     "reachable with the null placeholder the optional-"
+                     "match driver passes: get_nodes('servers[&standby]') "
+                     "on a list without that anchor raises ValueError")
+
+
 def run(chk: Check) -> None:
     prog = chk.prog
     cl = c15_closure(prog)
@@ -1040,6 +1081,7 @@ def run(chk: Check) -> None:
     d2f_join_over_text(chk, cl)
     d2h_aoh_means_raw_elements_are_mappings(chk)
     d2i_wrapper_equality_is_total(chk)
+    d2l_creation_helper_refuses_only_real_values(chk)
     d2k_generators_iterate_snapshots_of_mappings(chk, cl)
     from rules.shared import optional_groups_rule
     optional_groups_rule(chk, "C15-D2j", ("yamlpath/common/nodes.py",
